@@ -9,9 +9,9 @@ import zlib
 from lib.coqterm import cbytes, cbool, clist, cpair, cN, hx, unhx
 
 ID = "C41"
-QUICK_N = 1500
-THOROUGH_N = 30000
-SHARD = 100
+QUICK_N = 400
+THOROUGH_N = 4000
+SHARD = 35
 RULE = ("each case is a list of 1-3 flows (HTTP request/response pairs, now and then a non-HTTP flow or an HTTP flow "
         "without response) exported with the real SaveHar.export_har to a file and read back with the real FlowReader. "
         "70% structured: method x version (HTTP/1.1, HTTP/2.0, HTTP/3, few HTTP/1.0 and HTTP/2) x Host/authority shape x "
@@ -439,7 +439,7 @@ def run_impl(case):
         if os.path.exists(path):
             os.unlink(path)
     for fl in imported:
-        obs["imp"].append({"method": hx(fl.request.data.method), "url": _cps(fl.request.url), "ver": hx(fl.request.data.http_version),
+        obs["imp"].append({"method": hx(fl.request.data.method), "url": _cps(_url_of(fl.request)), "ver": hx(fl.request.data.http_version),
                            "rh": _hl(fl.request.headers), "rb": _oh(fl.request.raw_content),
                            "status": fl.response.status_code, "sver": hx(fl.response.data.http_version),
                            "sh": _hl(fl.response.headers), "sb": _oh(fl.response.raw_content)})
@@ -527,7 +527,12 @@ def _tables(flows, obs, rec):
 
 def _url_set(u):
     r = http.Request.make("GET", u)
-    return [hx(_se(urlmod.hostport(r.scheme, r.host, r.port))), _cps(r.url)]
+    return [hx(_se(urlmod.hostport(r.scheme, r.host, r.port))), _cps(_url_of(r))]
+
+
+def _url_of(r):
+    """scheme://host[:port]path from the four components the URL setter assigned (Request.url would print host:port for CONNECT)"""
+    return urlmod.unparse(r.scheme, r.host, r.port, r.path)
 
 
 # ------------------------------------------------------------------------------------------------ Coq terms
@@ -727,6 +732,7 @@ def oracle(case, obs):
     if len(imps) > len(origs):
         add("unexpected-extra-flow", f"{len(imps)} flows imported from {len(origs)} exported")
     for idx, (f, o) in enumerate(origs):
+        meth = o["method"]          # Request.method, i.e. upper-cased
         if idx >= len(imps):
             if not obs["imp_failed"]:
                 add("unexpected-flow-missing", f"flow {idx} missing after import without an error")
@@ -739,7 +745,7 @@ def oracle(case, obs):
                 add("non-utf8-header-import-fails", what + "a header name/value is not valid UTF-8")
             elif o["url_rejected"]:
                 add("url-rejected-import-fails", what + f"Request.make rejects the exported URL {''.join(map(chr, o['url']))!r}")
-            elif f["method"] in POSTLIKE and f["rb"] is None:
+            elif meth in POSTLIKE and f["rb"] is None:
                 add("missing-request-body-import-fails", what + f"{f['method']} request without captured body exports postData.text = null")
             elif any(k.lower() == b"content-encoding" and x.lower() not in KNOWN_CE for k, x in sh):
                 add("unknown-content-encoding-import-fails", what + "the response has a Content-Encoding mitmproxy cannot encode")
@@ -756,7 +762,7 @@ def oracle(case, obs):
             add("unexpected-method", tag + f"method {o['method']!r} -> {i['method']!r}")
         if i["url"] != o["url"]:
             ou, iu = "".join(map(chr, o["url"])), "".join(map(chr, i["url"]))
-            if f["method"] == "CONNECT":
+            if meth == "CONNECT":
                 add("connect-url-changed", tag + f"url {ou!r} -> {iu!r}")
             elif _ref_normalise_url(ou) == iu:
                 add("url-normalised-by-importer", tag + f"url {ou!r} -> {iu!r}")
@@ -772,14 +778,17 @@ def oracle(case, obs):
         for n in ch:
             if n == b"host":
                 add("host-header-rewritten", tag + f"Host {[x for x in o['rh'] if _lower(x[0]) == n]} -> {[x for x in i['rh'] if _lower(x[0]) == n]} (hex)")
-            elif n == b"content-encoding":
+            elif n == b"content-encoding" and not [x for x in i["rh"] if _lower(x[0]) == n]:
                 add("request-content-encoding-dropped", tag + "request Content-Encoding header removed by the importer")
             elif n == b"content-type":
                 add("request-content-type-rewritten", tag + "request Content-Type rewritten (charset=utf-8 forced)")
             else:
                 add("unexpected-request-header-change", tag + f"header {n!r} changed")
-        if f["method"] in POSTLIKE and (o["rbody"] or "") != (i["rbody"] or ""):
-            add("request-body-charset-sniffed" if o["rsniffed"] else "request-body-reencoded", tag + f"request body {o['rbody']} -> {i['rbody']}")
+        if meth in POSTLIKE and (o["rbody"] or "") != (i["rbody"] or ""):
+            if obs["entries"][idx]["post"] is None:
+                add("unexpected-request-body-dropped", tag + "the exported entry has no postData although the method is POST/PUT/PATCH")
+            else:
+                add("request-body-charset-sniffed" if o["rsniffed"] else "request-body-reencoded", tag + f"request body {o['rbody']} -> {i['rbody']}")
         orr, ir = o["resp"], i["resp"]
         if orr is None:
             continue
@@ -791,9 +800,10 @@ def oracle(case, obs):
             elif orr["ver"] in ("HTTP/1.1", "HTTP/3"):
                 add("unexpected-version", tag + f"response version {orr['ver']} -> {ir['ver']}")
         for n in _hdr_causes(orr["h"], ir["h"], False):
-            if n == b"content-length":
+            now = [x for x in ir["h"] if _lower(x[0]) == n]
+            if n == b"content-length" and len(now) == 1 and unhx(now[0][1]) == str(len(unhx(ir["body"] or ""))).encode():
                 add("response-content-length-rewritten", tag + "response Content-Length added or changed by the importer")
-            elif n == b"content-encoding":
+            elif n == b"content-encoding" and not now:
                 add("response-content-encoding-dropped", tag + "response Content-Encoding header removed by the importer")
             else:
                 add("unexpected-response-header-change", tag + f"header {n!r} changed")
